@@ -470,3 +470,34 @@ def batch_total_rule(rep, F):
         if not whole or local:
             rep.violation("TOTAL-all", "AssetCategorizer::new|%s" % ("sub-collection" if local else "not-from-utxos"), "AssetCategorizer::new hands UtxosStat::new a total ADA that is %s: when the ADA sits in asset-bearing UTxOs the coin is assumed narrower than it will be and packed values exceed max_value_size by the missing coin bytes" % ("accumulated over a locally built collection (%s)" % ", ".join(H_short(l) for l in local) if local else "not accumulated over the coins of the supplied UTxOs"), {})
     rep.floor("UtxosStat::new calls in AssetCategorizer::new", 1, n)
+
+
+def cert_cred_rule(rep, F):
+    """has_script_credentials of each certificate type looks at the credential the ledger witnesses (tables/c18_cert_signers.json)"""
+    import re as _re
+    import common as _common
+    tab = _common.load_table("c18_cert_signers.json")["table"]
+    rep.rule("CERT-cred", "for every certificate type, has_script_credentials() tests the credential the ledger requires a witness for (the same credential the key-signer table names): a certificate is offered / denied a script witness, and gets / misses its redeemer pointer, by the right credential")
+    n = 0
+    for variant, ops in sorted(tab.items()):
+        fields = set()
+        for o in ops:
+            m = _re.search(r"\$v\.([a-z_]+)", o)
+            if m:
+                fields.add(m.group(1))
+        cred = {f for f in fields if f.endswith("credential")}
+        ids = F.by_key("%s::has_script_credentials" % variant)
+        if not ids or not cred:
+            continue
+        adts = [a for a in F.adts if a.endswith("::" + variant)]
+        if len(ids) != 1 or len(adts) != 1:
+            rep.lost("%s::has_script_credentials / its type not found uniquely" % variant)
+            continue
+        n += 1
+        rep.inst("CERT-cred")
+        fs = {f["name"] for f in F.adts[adts[0]]["variants"][0]["fields"]}
+        rd = {f for (a, f) in fields_read(F, ids[0], depth=1) if a == adts[0]} & fs
+        rd_cred = {f for f in rd if f.endswith("credential")}
+        if rd_cred != cred:
+            rep.violation("CERT-cred", "%s|%s" % (variant, ",".join(sorted(rd_cred))), "%s::has_script_credentials tests %s; the ledger witnesses %s for this certificate: with credentials of different kinds the builder accepts a script witness (and emits a redeemer pointing at a certificate that is not script-locked) or refuses the one that is needed" % (variant, sorted(rd_cred), sorted(cred)), {})
+    rep.floor("certificate types whose script-credential test is compared with the ledger table", 12, n)
